@@ -3,6 +3,7 @@ import os, re
 
 ID = "C17"
 LEVEL = "proof"
+EXTRA_TARGETS = ["Proofs/OpcodeTie.vo"]   # regenerated opcode enum == protocol table
 RULE = ("minimally-pushed scripts from the C02 grammar over every opcode of the enum (round trip, plain and extended rendering), "
         "every 1-byte payload and the 1- and 2-byte payloads whose hex is all digits (all 10 000 in the thorough tier), payload "
         "lengths on both sides of 75/76, 255/256, 65535/65536, conditionals with empty / missing branches up to depth 64, "
